@@ -13,6 +13,7 @@ pub struct TokenBasedLuaGenerator<'a> {
     output: String,
     currently_commenting: bool,
     current_line: usize,
+    ends_with_number: bool,
 }
 
 impl<'a> TokenBasedLuaGenerator<'a> {
@@ -22,10 +23,12 @@ impl<'a> TokenBasedLuaGenerator<'a> {
             output: String::new(),
             currently_commenting: false,
             current_line: 1,
+            ends_with_number: false,
         }
     }
 
     fn push_str(&mut self, string: &str) {
+        self.ends_with_number = false;
         self.current_line += utils::count_new_lines(string.as_bytes());
         self.output.push_str(string);
     }
@@ -1983,6 +1986,8 @@ impl<'a> TokenBasedLuaGenerator<'a> {
     fn needs_space(&self, next_character: char) -> bool {
         if let Some(last) = self.output.chars().last() {
             utils::should_break_with_space(last, next_character)
+                || (self.ends_with_number
+                    && utils::should_break_after_number(last, next_character))
         } else {
             false
         }
@@ -2350,6 +2355,7 @@ impl LuaGenerator for TokenBasedLuaGenerator<'_> {
         } else {
             self.write_token(&Token::from_content(utils::write_number(number)));
         }
+        self.ends_with_number = true;
     }
 
     fn write_tuple_arguments(&mut self, arguments: &TupleArguments) {
